@@ -15,14 +15,23 @@ use revm_primitives::hardfork::SpecId;
 const ONCE_MSG: &str = "a Scheduler can execute only once";
 
 pub fn race_job(case: &Case, run: &RunCfg, entries: Vec<Entry>, gran: Granularity, bound: usize) -> Job {
-    let id = format!("c14-once/{}/{}/{:?}/{}-d{bound}", case.name, run.label(), entries, gran.name());
+    race_job_with(case, run, entries, gran, bound, None)
+}
+
+/// With a database fault: the elected call may *fail* (seeded change C14d released the claim when
+/// the up-front read of the fee recipient failed) - it has still run, every other call is refused,
+/// and outcomes and state are those of the one failed run.
+pub fn race_job_with(case: &Case, run: &RunCfg, entries: Vec<Entry>, gran: Granularity, bound: usize, fault: Option<FaultPlan>) -> Job {
+    let flabel = fault.as_ref().map_or(String::new(), |f| format!(",fault[{}:{:?}]", f.key.as_ref().map_or("-".into(), |k| k.label()), f.mode));
+    let id = format!("c14-once/{}/{}{flabel}/{:?}/{}-d{bound}", case.name, run.label(), entries, gran.name());
     let body = {
         let case = case.clone();
         let run = run.clone();
         let entries = entries.clone();
+        let fault = fault.clone();
         Arc::new(move || {
             use grevm_verif_rt as rt;
-            let db = Arc::new(ExecDb::new(case.db.clone(), None, false, false));
+            let db = Arc::new(ExecDb::new(case.db.clone(), fault.clone(), false, false));
             crate::case::install_observer(false);
             let state = ParallelState::new(db, true, false);
             let scheduler = Scheduler::new_with_runtime_config(
@@ -67,11 +76,32 @@ pub fn race_job(case: &Case, run: &RunCfg, entries: Vec<Entry>, gran: Granularit
     let expected: Arc<OnceLock<Expected>> = Arc::new(OnceLock::new());
     let judge = {
         let case = case.clone();
+        let fault = fault.clone();
         Arc::new(move |res: &ExecResult| {
-            let exp = expected.get_or_init(|| reference(&case, None));
             let rs: Vec<String> = res.extra.as_array().unwrap().iter().map(|v| v.as_str().unwrap().to_string()).collect();
-            let winners = rs.iter().filter(|r| *r == "Ok(Ok(()))").count();
             let rejected = rs.iter().filter(|r| r.contains(ONCE_MSG)).count();
+            if let Some(f) = &fault {
+                // exactly one call ran (successfully or not); all others were refused
+                let ran = rs.iter().filter(|r| !r.contains(ONCE_MSG) && r.starts_with("Ok(")).count();
+                if ran != 1 || rejected != rs.len() - 1 {
+                    return Judgement::Violation {
+                        key: "not-exactly-one-run".into(),
+                        detail: format!("entry-point results under {f:?}: {rs:?} (expected exactly one call that ran - Ok or a database error - and the once-only error for every other call)"),
+                    };
+                }
+                let obs = res.obs.as_ref().unwrap();
+                let failed = rs.iter().any(|r| r.starts_with("Ok(Err(") && !r.contains(ONCE_MSG));
+                // a failed run leaves the exact prefix of the in-order run on the same faulty
+                // database; a run that absorbed a transient fault leaves the fault-free result
+                let exp = if failed { reference(&case, Some(FaultPlan { key: f.key.clone(), mode: FaultMode::Persistent })) } else { reference(&case, None) };
+                return if obs.outcomes == exp.obs.outcomes && obs.bundle == exp.obs.bundle {
+                    Judgement::Ok
+                } else {
+                    Judgement::Violation { key: "applied-not-once".into(), detail: obs.diff(&exp.obs) }
+                };
+            }
+            let exp = expected.get_or_init(|| reference(&case, None));
+            let winners = rs.iter().filter(|r| *r == "Ok(Ok(()))").count();
             if winners != 1 || rejected != rs.len() - 1 {
                 return Judgement::Violation {
                     key: "not-exactly-one-winner".into(),
@@ -152,6 +182,17 @@ pub fn jobs(tier: Tier) -> Vec<Job> {
                     v.push(race_job(case, run, es.clone(), FINE, 3));
                     v.push(race_job(case, run, es.clone(), COARSE, 4));
                 }
+            }
+        }
+    }
+    // the elected call fails: up-front read of the fee recipient (persistent and fail-once), or the
+    // first sender's record; callers one after the other and racing
+    for key in [DbKey::Basic(block.env.beneficiary), DbKey::Basic(eoa(0))] {
+        for mode in [FaultMode::Once, FaultMode::Persistent] {
+            for es in [vec![Entry::Execute, Entry::Execute], vec![Entry::Execute, Entry::FallbackSequential, Entry::ParallelExecute(1)], vec![Entry::FallbackSequential, Entry::Execute]] {
+                let plan = FaultPlan { key: Some(key.clone()), mode };
+                v.push(race_job_with(&block, &par, es.clone(), COARSE, if tier == Tier::Quick { 2 } else { 3 }, Some(plan.clone())));
+                v.push(race_job_with(&block, &par, es, FINE, if tier == Tier::Quick { 1 } else { 2 }, Some(plan)));
             }
         }
     }
